@@ -789,7 +789,7 @@ def _guards(fn: Fn, g):
                 out |= match_names[c.id]
         return out
 
-    flags = _bool_flags(fn)
+    flags = _bool_flags(fn, with_none=False)
     flag_ok: Set[str] = set()
 
     def fresh(names, t) -> bool:
@@ -960,7 +960,7 @@ def head_verified(fn: Fn, pop_call) -> bool:
         return not (n in edges and lab == edges[n])
 
     for s in [g.entry] + sorted(pops):
-        if g.can_reach(s, site, avoid=uncond - {site}, edge_filter=unguarded_edge):
+        if flag_can_reach(g, fn, s, site, avoid=uncond - {site}, edge_filter=unguarded_edge):
             return False
     return True
 
@@ -1646,7 +1646,7 @@ def _true_producers(fn: Fn, g) -> List[int]:
     assignments of such a display to a local that is returned.  Unknown first components count as possibly True."""
     out = []
 
-    flags = _bool_flags(fn)
+    flags = _bool_flags(fn, with_none=False)
 
     def maybe_true(d) -> bool:
         if not d.elts:
@@ -1813,13 +1813,25 @@ def _all_bindings(fn: Fn):
 _BIND_CACHE: Dict[int, Dict[str, list]] = {}
 
 
-def _bool_flags(fn: Fn) -> Set[str]:
-    """Local names that are only ever bound by `name = True` / `name = False`."""
+def _bool_flags(fn: Fn, with_none: bool = True) -> Set[str]:
+    """Local names that are only ever bound by `name = True` / `name = False` (and, with_none, the None-markers)."""
     out = set()
     for nm, bs in _all_bindings(fn).items():
         if bs and all(k == "assign" and path == () and isinstance(v, ast.Constant) and isinstance(v.value, bool)
                       and len(node.targets if isinstance(node, ast.Assign) else [1]) == 1
                       for k, node, v, path in bs):
+            out.add(nm)
+    if not with_none:
+        return out
+    # None-markers: locals that are somewhere assigned the constant None and somewhere tested with `is None` / `is not None`
+    # (single-exit results, "not found" markers, the inliner's return temporaries); only the known-None state is tracked
+    tested = set()
+    for n in walk_fn(fn.node):
+        if isinstance(n, ast.Compare) and len(n.ops) == 1 and isinstance(n.ops[0], (ast.Is, ast.IsNot, ast.Eq, ast.NotEq)) \
+                and isinstance(n.left, ast.Name) and isinstance(n.comparators[0], ast.Constant) and n.comparators[0].value is None:
+            tested.add(n.left.id)
+    for nm, bs in _all_bindings(fn).items():
+        if nm in tested and any(k == "assign" and path == () and isinstance(v, ast.Constant) and v.value is None for k, node, v, path in bs):
             out.add(nm)
     return out
 
@@ -1829,7 +1841,8 @@ def _flag_truth(e, state: Dict[str, bool]) -> Optional[bool]:
     if isinstance(e, ast.Constant):
         return bool(e.value)
     if isinstance(e, ast.Name):
-        return state.get(e.id)
+        v_ = state.get(e.id)
+        return False if v_ == "None" else v_ if isinstance(v_, bool) else None
     if isinstance(e, ast.UnaryOp) and isinstance(e.op, ast.Not):
         r = _flag_truth(e.operand, state)
         return None if r is None else not r
@@ -1843,7 +1856,10 @@ def _flag_truth(e, state: Dict[str, bool]) -> Optional[bool]:
             return True
         return False if all(r is False for r in rs) else None
     if isinstance(e, ast.Compare) and len(e.ops) == 1 and isinstance(e.comparators[0], ast.Constant) \
-            and isinstance(e.comparators[0].value, bool) and isinstance(e.left, ast.Name) and e.left.id in state:
+            and e.comparators[0].value is None and isinstance(e.left, ast.Name) and state.get(e.left.id) == "None":
+        return isinstance(e.ops[0], (ast.Is, ast.Eq))
+    if isinstance(e, ast.Compare) and len(e.ops) == 1 and isinstance(e.comparators[0], ast.Constant) \
+            and isinstance(e.comparators[0].value, bool) and isinstance(e.left, ast.Name) and isinstance(state.get(e.left.id), bool):
         same = state[e.left.id] is e.comparators[0].value
         if isinstance(e.ops[0], (ast.Is, ast.Eq)):
             return same
@@ -1870,8 +1886,21 @@ def _flag_state_at(g, fn: Fn, a: int, flags) -> tuple:
             node = g.nodes[n]
             a_ = node.ast
             if node.kind == "stmt" and isinstance(a_, ast.Assign) and len(a_.targets) == 1 and isinstance(a_.targets[0], ast.Name) \
-                    and a_.targets[0].id in flags and isinstance(a_.value, ast.Constant):
-                st[a_.targets[0].id] = bool(a_.value.value)
+                    and a_.targets[0].id in flags:
+                if isinstance(a_.value, ast.Constant) and isinstance(a_.value.value, bool):
+                    st[a_.targets[0].id] = a_.value.value
+                elif isinstance(a_.value, ast.Constant) and a_.value.value is None:
+                    st[a_.targets[0].id] = "None"
+                else:
+                    st.pop(a_.targets[0].id, None)
+            elif a_ is not None and node.kind in ("stmt", "iter", "test", "with"):
+                # a loop header binds its target only, a with header its `as` names: the body has CFG nodes of its own
+                roots = [a_.target] if isinstance(a_, (ast.For, ast.AsyncFor)) else \
+                    [i for it in a_.items for i in (it.context_expr, it.optional_vars) if i is not None] \
+                    if isinstance(a_, (ast.With, ast.AsyncWith)) else [a_]
+                for x in (y for r in roots for y in ast.walk(r)):
+                    if isinstance(x, ast.Name) and isinstance(x.ctx, ast.Store) and x.id in flags:
+                        st.pop(x.id, None)
             for m, lab in g.succ[n]:
                 cur = inn[m]
                 if cur is None:
@@ -1882,7 +1911,8 @@ def _flag_state_at(g, fn: Fn, a: int, flags) -> tuple:
                     if new_ != cur:
                         inn[m] = new_
                         work.append(m)
-        cp = {n: tuple(sorted((k, v) for k, v in (d or {}).items() if isinstance(v, bool))) for n, d in inn.items()}
+        cp = {n: tuple(sorted(((k, v) for k, v in (d or {}).items() if isinstance(v, bool) or v == "None"), key=lambda kv: kv[0]))
+              for n, d in inn.items()}
         _FLAG_CP[id(g)] = cp
     return cp.get(a, ())
 
@@ -1899,10 +1929,20 @@ def flag_can_reach(g, fn: Fn, a: int, b: int, avoid=frozenset(), follow_exc=True
         node = g.nodes[nid]
         st = node.ast
         if node.kind == "stmt" and isinstance(st, ast.Assign) and len(st.targets) == 1 and isinstance(st.targets[0], ast.Name) \
-                and st.targets[0].id in flags and isinstance(st.value, ast.Constant):
+                and st.targets[0].id in flags:
             s2 = dict(state)
-            s2[st.targets[0].id] = bool(st.value.value)
-            return tuple(sorted(s2.items()))
+            if isinstance(st.value, ast.Constant) and isinstance(st.value.value, bool):
+                s2[st.targets[0].id] = st.value.value
+            elif isinstance(st.value, ast.Constant) and st.value.value is None:
+                s2[st.targets[0].id] = "None"
+            else:
+                s2.pop(st.targets[0].id, None)
+            return tuple(sorted(s2.items(), key=lambda kv: kv[0]))
+        if node.kind == "stmt" and st is not None and not isinstance(st, ast.Assign):
+            # any other binding of a tracked name (augmented assignment, for target, walrus, with ... as) makes it unknown
+            killed = {x.id for x in ast.walk(st) if isinstance(x, ast.Name) and isinstance(x.ctx, ast.Store) and x.id in flags}
+            if killed:
+                return tuple(sorted(((k, v) for k, v in state if k not in killed), key=lambda kv: kv[0]))
         return state
 
     def out_edges(nid, state):
